@@ -81,7 +81,8 @@ func RunTLC(o TLCOpts) (*TLCResult, error) {
 	if o.Timeout == 0 {
 		o.Timeout = 10 * time.Minute
 	}
-	args := []string{"-XX:+UseParallelGC", "-Xss64m"}
+	// TLC unpacks its standard modules into a directory under java.io.tmpdir and leaves it there: keep it inside the scratch directory
+	args := []string{"-XX:+UseParallelGC", "-Xss64m", "-Djava.io.tmpdir=" + dir}
 	if o.DFS {
 		args = append(args, "-Dtlc2.tool.queue.IStateQueue=StateDeque")
 	}
@@ -220,6 +221,7 @@ func RunApalache(module string, timeout time.Duration, args ...string) (string, 
 	defer cancel()
 	cmd := exec.CommandContext(ctx, "apalache-mc", append(append([]string{"check", "--out-dir=" + filepath.Join(dir, "out")}, args...), module+".tla")...)
 	cmd.Dir = dir
+	cmd.Env = append(os.Environ(), "JVM_ARGS=-Djava.io.tmpdir="+dir, "TMPDIR="+dir)
 	out, _ := cmd.CombinedOutput()
 	text := string(out)
 	switch {
